@@ -257,6 +257,28 @@ def check_graph(schema, files, main="a.conf", validator=False, schema_xml=None):
                     elif err.getvalue() != "".join(expected_msgs):
                         out.append(("validator:wrong-messages", "stderr %r expected %r"
                                     % (err.getvalue()[:300], "".join(expected_msgs)[:300])))
+                # files are named: the standard input plays no part, whatever state it is in
+                import sys as _sys0
+                for label_, fake in (("none", None), ("closed", "closed")):
+                    old0 = _sys0.stdin
+                    err0 = io.StringIO()
+                    try:
+                        if fake == "closed":
+                            fh0 = io.StringIO("")
+                            fh0.close()
+                            _sys0.stdin = fh0
+                        else:
+                            _sys0.stdin = None
+                        with contextlib.redirect_stderr(err0), contextlib.redirect_stdout(io.StringIO()):
+                            rc0 = ZConfig.validator.main(["-s", spath] + paths)
+                        if rc0 != (1 if expected_msgs else 0):
+                            out.append(("validator:wrong-status", "stdin %s: returned %r" % (label_, rc0)))
+                    except SystemExit as e:
+                        out.append(("validator:SystemExit", "stdin %s: %r" % (label_, e.code)))
+                    except Exception as e:  # noqa
+                        out.append(("validator:raises:%s" % type(e).__name__, "stdin %s: %s" % (label_, str(e)[:200])))
+                    finally:
+                        _sys0.stdin = old0
                 # no file argument: the one configuration is read from standard input (a pipe)
                 import sys as _sys
                 first = names[0]
